@@ -78,9 +78,9 @@ def listing(d):
     return out
 
 
-def model_step(state, fmt, exprs, exp):
+def model_step(state, fmt, exprs, exp, name=None):
     """-> (set of acceptable (exit, state)) ; exp: list of expected bytes per expr (None = unconvertible)"""
-    name = "probe." + EXT[fmt]
+    name = name or ("probe." + EXT[fmt])
     if len(exprs) == 0:
         return [(0, dict(state))]
     if len(exprs) == 1:
@@ -105,10 +105,12 @@ def work(chunk):
     viol = []
     transitions = 0
     states = set()
-    for fmt, initial, builds in chunk:
+    for item in chunk:
+        fmt, initial, builds = item[0], item[1], item[2]
+        stem = item[3] if len(item) > 3 else "probe"
         d = tempfile.mkdtemp(prefix="ucgverif-c14-")
         try:
-            name = "probe." + EXT[fmt]
+            name = stem + "." + EXT[fmt]
             state = {}
             if initial == "sentinel":
                 with open(os.path.join(d, name), "wb") as f:
@@ -116,11 +118,11 @@ def work(chunk):
                 state[name] = SENTINEL
             bad = None
             for step, exprs in enumerate(builds):
-                with open(os.path.join(d, "probe.ucg"), "w") as f:
+                with open(os.path.join(d, stem + ".ucg"), "w") as f:
                     f.write(source(fmt, exprs))
                 exp = [expected_bytes(srv, fmt, e) for e in exprs]
-                acceptable = model_step(state, fmt, exprs, exp)
-                rc, out, err = core.run_ucg(["build", "probe.ucg"], cwd=d)
+                acceptable = model_step(state, fmt, exprs, exp, name)
+                rc, out, err = core.run_ucg(["build", stem + ".ucg"], cwd=d)
                 after = listing(d)
                 transitions += 1
                 states.add(core.json.dumps(sorted((k, core.hashlib.sha1(v).hexdigest()[:8]) for k, v in after.items())))
@@ -133,14 +135,14 @@ def work(chunk):
                     elif set(after) != set(a_state):
                         extra = sorted(set(after) - set(a_state))
                         missing = sorted(set(a_state) - set(after))
-                        what = "listing:" + ("+" + ",".join(x.replace("probe", "STEM") for x in extra) if extra else "") + ("-" + ",".join(x.replace("probe", "STEM") for x in missing) if missing else "")
+                        what = "listing:" + ("+" + ",".join(x.replace(stem, "STEM") for x in extra) if extra else "") + ("-" + ",".join(x.replace(stem, "STEM") for x in missing) if missing else "")
                     else:
                         n = [k for k in after if after[k] != a_state[k]][0]
                         what = "bytes:%s" % ("empty-or-truncated" if len(after[n]) < len(a_state[n]) else "differ-from-convert")
                         if a_state[n] == SENTINEL:
                             what = "bytes:earlier-artifact-destroyed"
                     bad = ("%s:%s:%dout:%s:%s" % (fmt, kind, len(exprs), "after-" + ("good-artifact" if state else "nothing"), what),
-                           {"fmt": fmt, "initial": initial, "builds": builds, "step": step},
+                           {"fmt": fmt, "initial": initial, "builds": builds, "step": step, "stem": stem},
                            {"rc": rc, "expected_rc": a_rc, "after": {k: v.decode("utf-8", "replace")[:200] for k, v in after.items()},
                             "expected": {k: v.decode("utf-8", "replace")[:200] for k, v in a_state.items()}, "stderr": err.decode("utf-8", "replace")[-300:]})
                     break
@@ -155,7 +157,15 @@ def work(chunk):
     return {"evals": len(chunk), "hist": hist, "viol": viol, "transitions": transitions, "state_keys": list(states)}
 
 
+STEMS = ["my.conf", "a b", "dash-name_1", "UPPER", "x.ucg.bak"]
+
+
 def traces(thorough):
+    # the artifact is named like the source file with the format's extension, whatever the stem looks like
+    for fmt in EXT:
+        for stem in STEMS:
+            yield (fmt, "empty", [[GOOD[fmt][0]]], stem)
+            yield (fmt, "sentinel", [[BAD[fmt][0]]], stem)
     for fmt in EXT:
         vals = GOOD[fmt] + BAD[fmt]
         for initial in ("empty", "sentinel"):
@@ -206,7 +216,7 @@ def run(ctx):
 def replay(case):
     tr = case["trace"]
     core._WORKER_SERVER = None
-    part = work([(tr["fmt"], tr["initial"], tr["builds"])])
+    part = work([(tr["fmt"], tr["initial"], tr["builds"], tr.get("stem", "probe"))])
     core.worker_server().close()
     core._WORKER_SERVER = None
     return not part["viol"], {"violations": part["viol"]}
